@@ -68,3 +68,8 @@ check("C07",
       "Exploration: each generated script (pages incl. empty ones, distinct paging states incl. an empty one, per-page faults: delay, node-switching errors, same-node retried read timeout, non-retried errors, a connection cut; consumer eager/yielding/early drop; query_iter with and without values, execute_iter) runs through a real Session; delivered rows must equal the scripted pages in order up to the first non-retried failure and every page request seen by the mock must carry the previous page's state, the page size and the values. Control-connection pager: session start over a system.peers paged by 1-3 rows.",
       "Trusted: vkit::mock + reference codec, model of the default retry policy's retried faults. Real loopback sockets and tokio scheduling: interleavings inside the driver are sampled, not enumerated. A fresh session is used after a scripted connection cut.",
       "DESIGN.md 2/C07")
+check("C10",
+      "end-to-end fault injection by property-based generation: cut offsets, fault kinds, in-flight request mixes and timing generated; invariants over caller outcomes and the mock's frame log",
+      "Exploration: for every generated (in-flight requests, answered prefix, fault kind, cut offset, timing) the dying connection's callers must all complete within 10 s, never with another request's or a partial response; non-idempotent ones must fail and never be re-sent; completely answered ones succeed; the session serves a follow-up request and reconnects.",
+      "Trusted: vkit::mock, real loopback TCP and tokio time. Liveness = completion within 10 s (normal: ms). Interleavings inside the router task are sampled. Each case uses a fresh 2-node mock and Session.",
+      "DESIGN.md 2/C10")
